@@ -165,6 +165,42 @@ def check_one(case):
             if n in snaps and isinstance(t, dictable) and {c: list(v) for c, v in t.items()} != snaps[n]:
                 out.viol('input-mutated', '%s: input table %s was changed' % (label, n), **sig)
 
+    # ---------------- tables whose single value column carries a generic name ('val'), and ONE table object serving two inputs
+    if data is None and tabs:
+        out.sub()
+        calls[:] = []
+
+        def gtable(n, ks):
+            ks = list(ks)[::-1]
+            return dictable({'k': ks, 'val': ['%s:%s' % (n, k) for k in ks]})
+        kw2 = {n: ('%s:*' % n if assign[n] == 'scalar' else gtable(n, assign[n])) for n in names}
+        same = [n for n in names if assign[n] != 'scalar' and n not in dfl]
+        shared = None
+        if len(same) >= 2 and set(assign[same[0]]) == set(assign[same[1]]):
+            shared = gtable('s', assign[same[0]])
+            kw2[same[0]] = shared
+            kw2[same[1]] = shared
+        snaps2 = {n: {c: list(v) for c, v in t.items()} for n, t in kw2.items() if isinstance(t, dictable)}
+        try:
+            res2 = perdictable(f, on='k', defaults=dict(defaults) if dfl else {})(**kw2)
+            out.call()
+            if surviving:
+                def val2(n, k):
+                    if assign[n] == 'scalar':
+                        return '%s:*' % n
+                    if k not in tabs[n]:
+                        return defaults[n]
+                    return '%s:%s' % ('s' if (shared is not None and n in same[:2]) else n, k)
+                want2 = ['f(%s)' % ','.join([val2(n, k) for n in names] + ['None'] * (4 - len(names))) for k in surviving]
+                if not isinstance(res2, dictable) or list(res2['k']) != surviving or list(res2['data']) != want2:
+                    out.viol('wrong-value', '%s with value columns named val%s: got %r, expected keys %s values %s' % (
+                        label, ' and one table object for %s' % same[:2] if shared is not None else '', res2, surviving, want2), generic=True, shared=shared is not None, **sig)
+            for n, t in kw2.items():
+                if isinstance(t, dictable) and {c: list(v) for c, v in t.items()} != snaps2[n]:
+                    out.viol('input-mutated', '%s: the input table for %s (columns k, val) was changed to columns %s' % (label, n, list(t.keys())), generic=True, **sig)
+                    break
+        except Exception as e:
+            out.viol('perdictable-raised', '%s with value columns named val raised %s: %s' % (label, type(e).__name__, e), exc=type(e).__name__, generic=True, **sig)
     # ---------------- join() directly
     if data is None and tabs:
         out.sub()
